@@ -423,14 +423,14 @@ fn cmd_run(a: &Args) -> i32 {
     let found = found.lock().unwrap().take();
     if let Some(f) = found {
         run::install_panic_hook();
-        let minimized = match minimize(&f.start_fen, &f.trace, prop, &f.violation) {
+        let (min_start, minimized) = match minimize(&f.start_fen, &f.trace, prop, &f.violation) {
             Ok(m) => m,
             Err(HarnessError(e)) => {
                 eprintln!("HARNESS-ERROR while minimising: {}", e);
                 return 2;
             }
         };
-        let rep = match replay(&f.start_fen, &minimized, prop) {
+        let rep = match replay(&min_start, &minimized, prop) {
             Ok(r) => r,
             Err(HarnessError(e)) => {
                 eprintln!("HARNESS-ERROR while replaying: {}", e);
@@ -456,7 +456,8 @@ fn cmd_run(a: &Args) -> i32 {
             "run_seed": f.seed_i,
             "profile": profile,
             "swarm": f.swarm,
-            "start_fen": f.start_fen,
+            "start_fen": min_start,
+            "original_start_fen": f.start_fen,
             "original_trace_len": f.trace.len(),
             "trace": minimized.iter().map(|o| o.pretty()).collect::<Vec<_>>(),
             "violation": { "class": v.class, "step": v.step, "message": v.msg },
@@ -781,7 +782,7 @@ fn cmd_triage(a: &Args) -> i32 {
                 return 2;
             }
         };
-        let in_scope = world::World::panic_props(&last, "moves/base.rs").iter().any(|p| *p == prop);
+        let in_scope = world::World::panic_props(&last, "").iter().any(|p| *p == prop);
         if !in_scope {
             println!("CRASH-OUT-OF-SCOPE property={} run={} ({}) during {}", prop_name, idx, how, last.pretty());
             return 3;
